@@ -1,6 +1,8 @@
 package zz_verifsim
 
 import (
+	"encoding/binary"
+	"bytes"
 	"context"
 	"crypto/sha256"
 	"fmt"
@@ -38,6 +40,13 @@ type auditor struct {
 func newAuditor(w *World) (*auditor, error) {
 	mk := func(cache uint) (*cert.Authority, error) {
 		src := w.nodes[0]
+		for _, nd := range w.nodes {
+			if nd.honest && !nd.twin {
+				// the auditor sees the world as an honest replica does (a replica trusts its own key); the last
+				// honest one, because the rogue-key plans pick the first as the victim whose proof is re-used
+				src = nd
+			}
+		}
 		opts := []core.RuntimeOption{core.WithCache(cache)}
 		if src.cfg.HasAggregateQC() {
 			opts = append(opts, core.WithAggregateQC())
@@ -93,6 +102,7 @@ func monC02(w *World) {
 	if err != nil {
 		panic("harness: auditor: " + err.Error())
 	}
+	w.hooks.atEnd = append(w.hooks.atEnd, func() { assembledChecks(w) })
 	seenQC := map[string]bool{}
 	key := func(kind string, b []byte, extra uint64) string {
 		h := sha256.Sum256(b)
@@ -468,7 +478,151 @@ func monC03(w *World) {
 
 // ---- C11: the cache never changes a verdict --------------------------------------------------------
 
+// assembledChecks drives the Authority's own assembly functions with parts that do not belong together (honest
+// signatures taken from the run: a quorum less one of votes for a block plus one vote for its parent relabelled as a
+// vote for the block; likewise timeout signatures of two views) and verifies the result at the assembling Authority
+// itself, once with and once without a cache. The result has fewer than a quorum of valid signatures: a verdict
+// "accept" is a C02 violation, and different verdicts with and without a cache a C11 violation.
+func assembledChecks(w *World) {
+	if w.viol != nil || w.assembledDone || w.plan.N < 4 {
+		return
+	}
+	w.assembledDone = true
+	au, err := newAuditor(w)
+	if err != nil {
+		return
+	}
+	q := w.orc.q
+	type part struct {
+		id  hotstuff.ID
+		sig hotstuff.QuorumSignature
+	}
+	signersOf := func(msg []byte) []part {
+		var out []part
+		seen := map[hotstuff.ID]bool{}
+		for _, r := range w.orc.signs {
+			if !seen[r.nd.id] && bytes.Equal(r.msg, msg) && r.sig != nil && r.sig.Participants().Len() == 1 {
+				seen[r.nd.id] = true
+				out = append(out, part{r.nd.id, r.sig})
+			}
+		}
+		return out
+	}
+	report := func(what string, c, p bool) {
+		w.probe("assembled-certificate-checked")
+		if c != p {
+			w.violate("C11", "C11/assembled/accept-vs-reject", nil, "%s: the assembling replica's own verification says cached:%v uncached:%v", what, verdictB(c), verdictB(p))
+		}
+		if c || p {
+			w.violate("C02", "C02/sound-qc:assembled", nil, "%s is accepted (cache:%v plain:%v) although fewer than a quorum of its signatures are valid for it", what, c, p)
+		}
+	}
+	done := 0
+	for _, bi := range w.reg.order {
+		if done >= 6 || w.viol != nil {
+			break
+		}
+		b := bi.b
+		pb := w.reg.get(b.Parent())
+		if bi.idx == 0 || pb == nil || pb.Hash() == hotstuff.GetGenesis().Hash() {
+			continue
+		}
+		mine, other := signersOf(b.ToBytes()), signersOf(pb.ToBytes())
+		if len(mine) < q-1 {
+			continue
+		}
+		var parts []hotstuff.PartialCert
+		used := map[hotstuff.ID]bool{}
+		for _, v := range mine[:q-1] {
+			parts = append(parts, hotstuff.NewPartialCert(v.sig, b.Hash()))
+			used[v.id] = true
+		}
+		found := false
+		for _, v := range other {
+			if !used[v.id] {
+				parts = append(parts, hotstuff.NewPartialCert(v.sig, b.Hash()))
+				found = true
+				break
+			}
+		}
+		if !found {
+			continue
+		}
+		done++
+		c, p, _ := au.each(func(x *cert.Authority) error {
+			qc, err := x.CreateQuorumCert(b, parts)
+			if err != nil {
+				return err
+			}
+			return x.VerifyQuorumCert(qc)
+		})
+		report(fmt.Sprintf("a certificate for %s assembled from %d votes for it and one vote for its parent", bi.sym, q-1), c, p)
+	}
+	// timeout certificates: signatures over two different views
+	views := map[hotstuff.View][]part{}
+	var order []hotstuff.View
+	seen := map[[2]uint64]bool{}
+	for _, r := range w.orc.signs {
+		if len(r.msg) != 8 || r.sig == nil || r.sig.Participants().Len() != 1 {
+			continue
+		}
+		v := hotstuff.View(binary.LittleEndian.Uint64(r.msg))
+		if seen[[2]uint64{uint64(v), uint64(r.nd.id)}] {
+			continue
+		}
+		seen[[2]uint64{uint64(v), uint64(r.nd.id)}] = true
+		if len(views[v]) == 0 {
+			order = append(order, v)
+		}
+		views[v] = append(views[v], part{r.nd.id, r.sig})
+	}
+	done = 0
+	for i, v := range order {
+		if done >= 4 || w.viol != nil || i+1 >= len(order) {
+			break
+		}
+		v2 := order[i+1]
+		if len(views[v]) < q-1 || v == 0 {
+			continue
+		}
+		var tos []hotstuff.TimeoutMsg
+		used := map[hotstuff.ID]bool{}
+		for _, x := range views[v][:q-1] {
+			tos = append(tos, hotstuff.TimeoutMsg{ID: x.id, View: v, ViewSignature: x.sig})
+			used[x.id] = true
+		}
+		found := false
+		for _, x := range views[v2] {
+			if !used[x.id] {
+				tos = append(tos, hotstuff.TimeoutMsg{ID: x.id, View: v, ViewSignature: x.sig})
+				found = true
+				break
+			}
+		}
+		if !found {
+			continue
+		}
+		done++
+		c, p, _ := au.each(func(x *cert.Authority) error {
+			tc, err := x.CreateTimeoutCert(v, tos)
+			if err != nil {
+				return err
+			}
+			return x.VerifyTimeoutCert(tc)
+		})
+		report(fmt.Sprintf("a timeout certificate for view %d assembled from %d signatures over that view and one over view %d", v, q-1, v2), c, p)
+	}
+}
+
+func verdictB(ok bool) string {
+	if ok {
+		return "accept"
+	}
+	return "reject"
+}
+
 func monC11(w *World) {
+	w.hooks.atEnd = append(w.hooks.atEnd, func() { assembledChecks(w) })
 	w.hooks.onVerify = append(w.hooks.onVerify, func(nd *Node, op string, sig hotstuff.QuorumSignature, msg []byte, batch map[hotstuff.ID][]byte, err error) {
 		if nd.cfg.CacheSize() == 0 || w.viol != nil {
 			return
